@@ -34,6 +34,23 @@ CHECKS = {
              "lines, seeded random), for every history TLC enumerates and every comment-at-boundary document.",
         note="Same trusted base as C09; canonicity is only judged when the token stream survived (a lost comment is C09's).",
         technique="TLC model checking of Format.tla + replay of Format/Relayout histories + TLC trace validation"),
+    "C11": dict(
+        level="exploration", design="6 (C11), 3.10",
+        text="Entry.tla admits only the outcomes result | diagnostic for every entry point; every recorded call (format -d, format -f, "
+             "FormatPacketDslExport in a child process, compile with six targets) is validated by TLC against it (TraceEntry.tla: panic, abort "
+             "and hang are rejected). Inputs: all documents, token mutations Truncate/Drop/Dup at every 4th token (every token in thorough), "
+             "~45 optional-element forms, every fault case of Validate.tla, deep nesting, long inputs, seeded byte-level mutations and binary strings.",
+        note="Arbitrary byte strings can only be sampled; failures are identified at panic-site granularity (entry point + innermost fin-protoc frame).",
+        technique="input classes enumerated from the specs + seeded mutations, every call validated by TLC against Entry.tla outcomes"),
+    "C16": dict(
+        level="model_checking", design="6 (C16), 3.10",
+        text="Entry.tla (file / stdout / exit / tree machine) is model-checked (StdoutExact, FileUntouchedOnError, LibIsResult, TreeExact) and shown "
+             "sensitive (DebugPrintArgc switch); TLC enumerates all call histories of length <= 2; each is replayed on concrete texts through the real CLI "
+             "and the C library; compile is run for target subsets x {with, without the subcommand word} x {relative, absolute, nested, pre-existing} "
+             "directories; TLC validates every call against the library result / generator file maps obtained in-process (TraceEntry.tla).",
+        note="Trusted: the overlay driver's in-process FormatPacketDsl / generator file maps as 'the library result'; 'nowhere else' observed by listing "
+             "an empty working directory with HOME/TMPDIR redirected.",
+        technique="TLC model checking of Entry.tla + TLC-enumerated call histories replayed into CLI and C library + TLC trace validation"),
     "C12": dict(
         level="model_checking", design="6 (C12), 3.4",
         text="Validate.tla states well-formedness twice (declarative IllFormed, operational Check machine in the compiler's "
